@@ -2621,8 +2621,10 @@ fn slice_vec(v: &Xvec, start: isize, end: isize) -> Xvec {
 }
 
 fn core_word_slice(xs: &mut State) -> Xresult {
-    let end = xs.pop_data()?.to_isize()?;
-    let start = xs.pop_data()?.to_isize()?;
+    // slice clamps its bounds, so a bound outside the isize range is clamped too
+    let clamp = |i: Xint| i.clamp(isize::MIN as Xint, isize::MAX as Xint) as isize;
+    let end = clamp(xs.pop_data()?.to_xint()?);
+    let start = clamp(xs.pop_data()?.to_xint()?);
     let indexed = xs.pop_data()?;
     let slice = match indexed.value() {
         Cell::Vector(v) => Cell::from(slice_vec(v, start, end)),
